@@ -165,6 +165,30 @@ func ttestReplay(in io.Reader, raw bool, args []string) (*Summary, error) {
 				func(alt stats.LocationHypothesis) (*stats.TTestResult, error) {
 					return stats.TwoSampleWelchTTest(sb, sa, alt)
 				})
+			// the same samples handed over as *StreamStats (the other implementation of TTestSample in the library; an empty
+			// one reports Variance 0, not NaN): same statistics, and the same documented errors
+			ssa, ssb := &stats.StreamStats{}, &stats.StreamStats{}
+			for _, v := range a {
+				ssa.Add(v)
+			}
+			for _, v := range b {
+				ssb.Add(v)
+			}
+			check("TwoSampleTTest", tc.Pooled, len(a), len(b), 0,
+				func(alt stats.LocationHypothesis) (*stats.TTestResult, error) {
+					return stats.TwoSampleTTest(ssa, ssb, alt)
+				}, nil)
+			check("TwoSampleWelchTTest", tc.Welch, len(a), len(b), 0,
+				func(alt stats.LocationHypothesis) (*stats.TTestResult, error) {
+					return stats.TwoSampleWelchTTest(ssa, sb, alt)
+				}, nil)
+			for _, om := range tc.One {
+				mu0 := m.s*float64(om.Mu[0])/float64(om.Mu[1]) + m.o
+				check("OneSampleTTest", om.R, len(a), 0, mu0,
+					func(alt stats.LocationHypothesis) (*stats.TTestResult, error) {
+						return stats.OneSampleTTest(ssa, mu0, alt)
+					}, nil)
+			}
 			for _, pm := range tc.Paired {
 				mu0 := m.s * float64(pm.Mu[0]) / float64(pm.Mu[1]) // differences lose the offset
 				perm := rng.Perm(len(a))
